@@ -924,6 +924,11 @@ def classify_dup(b: Builder, t: Term, pol: bool, p: Term, enc: Enc, pcf) -> tupl
         elif core[0] == "any" and len(core[1]) == 1:
             new, exist, member, tested = _membership(core[1][0])
             bv = ("bv", core[2])
+        elif core[0] == "any" and len(core[1]) == 2:
+            # nested loops over the stored definitions that raise on the first assigned name: `for fs in ..: for f in fs: if key(f) in NEW: raise`
+            (i1, f1), (i2, f2) = core[1]
+            bv = ("bv", core[2] + 1)
+            new, exist, member, tested = _membership((("comp", "gen", bv, ((i1, f1), (i2, ())), core[2]), f2))
         elif core[0] == "call" and core[1] == "any" and len(core[2]) == 1 and core[2][0][0] == "comp" and len(core[2][0][3]) == 1:
             c = core[2][0]
             it, ifs = c[3][0]
